@@ -94,6 +94,24 @@ STRENGTHENED5 = {
     "C19": "refits refused by Qhull before the queries; one from-the-end index array shared with a hull on a wider table",
     "C20": "alpha as one shared array object; a refused component-wise call before the judged ones",
 }
+STRENGTHENED6 = {
+    "C03": "estimators with a past fitted on a sibling table (same shape, column means and column norms) before the judged data",
+    "C05": "regressor='precomputed' without weights (raw targets) and with weights from the raw kernel under center=True; training predictions judged as the least-squares image of the fitted targets on the training projections",
+    "C07": "block-diagonal tables (two sample groups with disjoint feature groups, every block above the 20 Lanczos vectors of the iterative solver), mostly mixing=1",
+    "C10": "badly scaled columns (decisive features 7 to 8.7 decades below the others, far above the numerical rank) with tiny alphas; fitted values X @ coef_ judged",
+    "C11": "the same weights handed over in another unit (x 2^-70 .. 2^49)",
+    "C12": "the judged fit receives the very array objects of an earlier fit, overwritten with the new kernels",
+    "C14": "score on held-out data and for latent coordinates supplied by the caller",
+    "C16": "chains: points strung along a line, weights growing along it, reach of one step (ascent paths of up to n-1 moves)",
+    "C20": "test sets made of the training environments, re-cut into as many differently sized structures",
+}
+FIRST6 = {}
+_p6 = os.path.join(VERIF, "seeded", "round6_first_run.log")
+if os.path.exists(_p6):
+    for line in open(_p6):
+        m_ = re.match(r"(C\d\d-r6[jk])\s+C\d\d:(\w+)", line)
+        if m_:
+            FIRST6[m_.group(1)] = m_.group(2)
 FIRST5 = {}
 _p5 = os.path.join(VERIF, "seeded", "round5_first_run.log")
 if os.path.exists(_p5):
@@ -127,19 +145,26 @@ def squash(t, n):
     return t if len(t) <= n else t[: n - 1].rsplit(" ", 1)[0] + " ..."
 
 
-for mf in sorted(glob.glob(os.path.join(VERIF, "seeded", "*-r[2345]*", "meta.json"))):
+for mf in sorted(glob.glob(os.path.join(VERIF, "seeded", "*-r[23456]*", "meta.json"))):
     d = os.path.dirname(mf)
     m = json.load(open(mf))
     notes = open(os.path.join(d, "NOTES.md")).read()
     title = notes.splitlines()[0].lstrip("# ").strip()
-    title = re.sub(r"^(C\d\d\s*/?\s*)?(seed|defect)?\s*\(?[abcdefghi]\)?\s*(?=[-—:(/ ])", "", title, flags=re.I).lstrip(" -—:/").strip()
+    title = re.sub(r"^(C\d\d\s*/?\s*)?(seed|defect)?\s*\(?[abcdefghijk]\)?\s*(?=[-—:(/ ])", "", title, flags=re.I).lstrip(" -—:/").strip()
     m["breaks"] = squash(title, 220)
     m["needs"] = squash(section(notes, "need|manifest"), 330)
     kind = m["name"][-1]
-    m["kind"] = {"a": "history / state dependent", "b": "numeric regime dependent", "c": "configuration / argument-form dependent", "d": "boundary / extreme-size dependent", "e": "entry-point / protocol dependent", "f": "order / randomness / accumulation dependent", "g": "free choice (meant to survive a randomized oracle campaign)", "h": "failure in the history / exception safety", "i": "aliasing / exotic argument / caller environment"}[kind]
+    m["kind"] = {"a": "history / state dependent", "b": "numeric regime dependent", "c": "configuration / argument-form dependent", "d": "boundary / extreme-size dependent", "e": "entry-point / protocol dependent", "f": "order / randomness / accumulation dependent", "g": "free choice (meant to survive a randomized oracle campaign)", "h": "failure in the history / exception safety", "i": "aliasing / exotic argument / caller environment", "j": "semantics-preserving rewrite with a hidden assumption", "k": "plausible but quantitatively wrong"}[kind]
     rel = os.path.relpath(mf, VERIF)
     p = subprocess.run(["git", "-C", VERIF, "show", f"{FIRST}:{rel}"], capture_output=True, text=True)
     first = None
+    if "-r6" in m["name"]:
+        first = FIRST6.get(m["name"])
+        m["first_verdict"] = first
+        m["history"] = "caught as filed" if first == "caught" else f"{first or 'not run'} as filed; caught after the check gained: {STRENGTHENED6.get(m['property'], '?')}"
+        json.dump(m, open(mf, "w"), indent=1)
+        print(m["name"], first, "|", m["breaks"][:80], "|", m["needs"][:60])
+        continue
     if "-r5" in m["name"]:
         first = FIRST5.get(m["name"])
         m["first_verdict"] = first
